@@ -158,6 +158,9 @@ Edits(d) ==
   \cup {E(21, p, AddCons(d, p[1], MkCons(CF(d, p).id, <<1>>, "")))
           : p \in CSites(d, LAMBDA c, f : f.kind = "typedef" /\ KindOf(d, f.type) \in {"struct", "custom"} /\ f.cond = "")}
   \cup {E(22, <<c>>, AddCons(d, c, d.decls[c].cons[1])) : c \in {k \in Kids(d) : d.decls[k].cons # <<>>}}
+  (* ... or repeats a constraint made by *any* ancestor, however far up *)
+  \cup {E(22, p, AddCons(d, p[1], AncestorCons(d, d.decls[p[1]].parent, 8)[p[2]]))
+          : p \in {q \in Kids(d) \X (1..12) : q[2] <= Len(AncestorCons(d, d.decls[q[1]].parent, 8))}}
   (* alignment and sizes *)
   \cup {E(51, p, InsField(d, p[1], p[2], MkScalar("zz_bit", 1)))
           : p \in FSites(d, ps, LAMBDA x, j : x.fields[j].kind \in {"array", "payload", "body"})}
